@@ -4,7 +4,7 @@
 
 use crate::dev::{AnyLink, Dev, LinkKind, RxPolicy, Wire};
 use crate::gen::{gen_packet, packet_eq, SizeCfg};
-use crate::scenario::{bucket, fail, poll, send, Outcome, Tier};
+use crate::scenario::{bucket, fail, poll, Outcome, Tier};
 use crate::sim::{show_packet, Crash, Sim};
 use ross_protocol::interface::InterfaceError;
 use ross_protocol::packet::Packet;
@@ -381,10 +381,13 @@ pub fn run(sim: &Sim, prop: &str, tier: Tier) -> Outcome {
         None
     };
 
+    let (w01_for_send, w10_for_send) = (w01.clone(), w10.clone());
     let do_send = |tx: &mut AnyLink, d: &mut Dir| -> Option<Outcome> {
         let who = if d.name == "e0->e1" { "e0" } else { "e1" };
         let p = &d.planned[d.sent];
-        match send(sim, who, tx, p) {
+        // (the sending endpoint receives from the other direction's wire)
+        let rxw = if d.name == "e0->e1" { &w10_for_send } else { &w01_for_send };
+        match crate::scenario::send_on(sim, who, tx, p, rxw) {
             Ok(Ok(())) => {}
             Ok(Err(_)) if d.unjudged => {
                 sim.count("send_of_the_receiving_endpoint_failed");
